@@ -346,4 +346,5 @@ let () =
   | _ :: "cps" :: _ -> Cpsdrv.run_cps ()
   | _ :: "fold" :: _ -> Cpsdrv.run_fold ()
   | _ :: "props" :: _ -> Cpsdrv.run_props ()
+  | _ :: "searcher" :: _ -> Srchdrv.run ()
   | _ -> main_exec ()
